@@ -75,7 +75,7 @@ def cycle_cases():
     cases = []
     EK = ("p", "d", "l", "la")
 
-    def mk(n, edges, back, out_sel, with_registry, extra_free=False):
+    def mk(n, edges, back, out_sel, with_registry, extra_free=False, prefix=None):
         def build(uberjob, log):
             from uberjob import Plan, Registry
 
@@ -92,9 +92,12 @@ def cycle_cases():
             calls = [plan.call(fn(i)) for i in range(n)]
             free = plan.call(fn(99)) if extra_free else None
 
+            def npos(j):
+                return sum(1 for *_, key in plan.graph.in_edges(calls[j], keys=True) if isinstance(key, uberjob.graph.PositionalArg))
+
             def connect(i, j, kind):
                 if kind == "p":
-                    plan.graph.add_edge(calls[i], calls[j], uberjob.graph.PositionalArg(plan.graph.in_degree(calls[j])))
+                    plan.graph.add_edge(calls[i], calls[j], uberjob.graph.PositionalArg(npos(j)))
                 elif kind == "d":
                     plan.add_dependency(calls[i], calls[j])
                 elif kind == "l":
@@ -104,12 +107,32 @@ def cycle_cases():
                 elif kind == "la":
                     lit = plan.lit("L")
                     plan.add_dependency(calls[i], lit)
-                    plan.graph.add_edge(lit, calls[j], uberjob.graph.PositionalArg(plan.graph.in_degree(calls[j])))
+                    plan.graph.add_edge(lit, calls[j], uberjob.graph.PositionalArg(npos(j)))
 
             for i, j, k in edges:
                 connect(i, j, k)
             bi, bj, bk = back
             connect(bi, bj, bk)
+            if prefix:
+                # a runnable acyclic part upstream of the cycle: nothing of it may run or be queried either
+                pk, pe = prefix
+
+                def pf(*a):
+                    log.append(("call", "prefix"))
+                    if pk == "call-fail":
+                        raise ValueError("prefix fails")
+                    return 7
+                if pk == "source":
+                    from .c07 import LogStore  # noqa
+                    pre = reg.source(plan, LogStore(log, "prefix-source"))
+                else:
+                    pre0 = plan.call(pf)
+                    pre = plan.call(pf, pre0)
+                    if reg is not None:
+                        from .c07 import LogStore  # noqa
+                        reg.add(pre0, LogStore(log, "prefix"))
+                calls.append(pre)
+                connect(len(calls) - 1, n - 1 if pe == "last" else 0, "p" if pk != "dep" else "d")
             if reg is not None:
                 from .c07 import LogStore  # noqa
                 for i in range(n):
@@ -133,6 +156,10 @@ def cycle_cases():
                     for wr in (False, True):
                         name = f"n={n} fwd={fk} back={bk} out={out_sel} reg={wr}"
                         cases.append((name, mk(n, fwd, (n - 1, 0, bk), out_sel, wr, extra_free=True), out_sel, wr))
+                        for pk in ("call", "call-fail", "dep") + (("source",) if wr else ()):
+                            for pe in ("first", "last"):
+                                if (fk, bk) in (("p", "p"), ("d", "l"), ("la", "d")) or n == 1:
+                                    cases.append((name + f" prefix={pk}->{pe}", mk(n, fwd, (n - 1, 0, bk), out_sel, wr, extra_free=True, prefix=(pk, pe)), out_sel, wr))
     return cases
 
 
